@@ -12,11 +12,12 @@ METHODS = ["upgma", "single", "complete", "ward"]
 COQ_METH = {"upgma": "Upgma", "single": "Single", "complete": "Complete", "ward": "Upgma"}
 
 GRID = [F(k, 8) for k in range(0, 17)]
+INF = F(2 ** 40)
 THRESH = [F(3, 10), F(45, 100), F(55, 100), F(0), F(1, 2), F(1), F(3, 4), F(1, 4), F(2), F(-1, 8), F(7, 20)]
 
 
 def gen_matrix(rng, n):
-    kind = rng.choice(["grid", "ties", "01", "coarse", "additive", "neartie", "neartie"])
+    kind = rng.choice(["grid", "ties", "01", "coarse", "additive", "neartie", "neartie", "negative", "inf"])
     if kind == "grid":
         vals = GRID
     elif kind == "ties":
@@ -25,6 +26,12 @@ def gen_matrix(rng, n):
         vals = [F(0), F(1)]
     elif kind == "coarse":
         vals = [F(0), F(1, 2), F(1)]
+    elif kind == "negative":
+        vals = [F(k, 4) for k in range(-3, 6)]          # negative entries are legal cells of a symmetric matrix
+    elif kind == "inf":
+        # undefined distances: the implementation gets float('inf'), the model the sentinel 2^40, which is
+        # far above every finite cell, every average containing it and every threshold (same decisions)
+        vals = [F(0), F(1, 2), F(1), F(1, 4), INF, INF]
     elif kind == "neartie":
         # near-ties: grid values plus tiny DYADIC perturbations (so that every float sum stays exact and
         # quotients remain separated by far more than an ulp): catches tolerance-based tie-breaking
@@ -48,7 +55,7 @@ def gen_case(rng, max_n):
     while meth == "ward" and kind == "neartie":
         # 'ward' squares the distances: the square of a near-tie value needs more than 53 bits
         kind, m = gen_matrix(rng, n)
-    entries = sorted({x for r in m for x in r})
+    entries = sorted({x for r in m for x in r if x != INF})
     def thr():
         c = rng.random()
         if c < 0.45 and entries:
@@ -62,6 +69,21 @@ def gen_case(rng, max_n):
             "taxa_container": rng.choice(["list", "list", "tuple", "str"]),
             "names": rng.choice(["plain", "odd"]), "int_thr": rng.random() < 0.3,
             "entry": rng.choice(["flat_cluster", "flat_upgma"])}
+
+
+def threshold_search(case):
+    """Variants of a case over the same matrix: every pair of thresholds taken from the cells, the midpoints between
+    neighbouring cells and the values just outside (the failing-input search of C05/C10 after a correspondence break)."""
+    cells = sorted({x for r in case["matrix"] for x in r if x != INF})
+    cand = set(cells)
+    for a, b in zip(cells, cells[1:]):
+        cand.add((a + b) / 2)
+    if cells:
+        cand |= {cells[0] - 1, cells[-1] + 1}
+    cand = sorted(cand)[:14]
+    for i, a in enumerate(cand):
+        for b in cand[i:]:
+            yield dict(case, t1=a, t2=b, int_thr=False)
 
 
 def deep_cases(n=24):
@@ -94,7 +116,7 @@ def exhaustive_cases(n_max=4, vals=(F(0), F(1, 2), F(1)), thrs=(F(0), F(3, 10), 
 def run_impl(case):
     """Run the current /repo implementation; returns canonical outputs."""
     from lingpy.algorithm import clustering
-    fm = [[float(x) for x in r] for r in case["matrix"]]
+    fm = [[float("inf") if x == INF else float(x) for x in r] for r in case["matrix"]]
     meth = case["method"]
     n = case["n"]
     if case.get("names") == "odd":      # names with blanks, case variants, digits, non-ASCII letters
